@@ -1208,7 +1208,10 @@ def store(
                 lock=lock,
                 return_stored=return_stored,
                 load_stored=load_stored,
-                token="store-map",
+                # Targets are tokenized by value; two distinct targets with equal
+                # content must not collapse into one write
+                name="store-map-"
+                + tokenize(s, t, id(t), r, lock, return_stored, load_stored),
                 meta=s._meta,
             )
         )
